@@ -336,7 +336,20 @@ func (t *Dense) ReadNpy(r io.Reader) (err error){
 	case reflect.{{reflectKind .}}:
 		data := t.{{sliceOf .}}
 		for i := 0; i < size; i++ {
+			{{if or (eq .String "int") (eq .String "uint") -}}
+			// encoding/binary only reads fixed-size values: go through the width in the header
+			if {{reflectKind .}}.Size() == 8 {
+				var v {{asType .}}64
+				br.Read(&v)
+				data[i] = {{asType .}}(v)
+			} else {
+				var v {{asType .}}32
+				br.Read(&v)
+				data[i] = {{asType .}}(v)
+			}
+			{{else -}}
 			br.Read(&data[i])
+			{{end -}}
 		}
 	{{end -}}
 	}
